@@ -127,6 +127,12 @@ func (w *c11World) add(e c11Event) int64 {
 	return e.Seq
 }
 
+func (w *c11World) inFlight() string {
+	w.mu.Lock()
+	defer w.mu.Unlock()
+	return w.cur
+}
+
 func (w *c11World) handlerNote(reqID string) string {
 	w.mu.Lock()
 	h := w.atBackend
@@ -342,7 +348,13 @@ func (b *c11Backend) HandleRequest(ctx context.Context, req *logical.Request) (*
 	case logical.RollbackOperation, logical.RevokeOperation, logical.RenewOperation:
 		return nil, nil
 	}
-	b.w.add(c11Event{Kind: "backend", Mount: b.name, ReqID: req.ID, Path: req.Path, Op: string(req.Operation), Note: b.w.handlerNote(req.ID)})
+	// Calls the core makes into the backend on its own account (alias look-ahead of the user-lockout
+	// check, role resolution) carry no request id: they belong to the client request in flight.
+	id, internal := req.ID, ""
+	if id == "" {
+		id, internal = b.w.inFlight(), "internal:"
+	}
+	b.w.add(c11Event{Kind: "backend", Mount: b.name, ReqID: id, Path: req.Path, Op: internal + string(req.Operation), Note: b.w.handlerNote(id)})
 	w := b.w
 	w.mu.Lock()
 	data, keys, writeNil, meta := w.respData, w.listKeys, w.writeNil, w.loginMeta
@@ -360,6 +372,19 @@ func (b *c11Backend) HandleRequest(ctx context.Context, req *logical.Request) (*
 	if b.typ == logical.TypeCredential {
 		if req.Path != "login" {
 			return nil, logical.ErrUnsupportedPath
+		}
+		user, _ := req.Data["username"].(string)
+		switch req.Operation {
+		case logical.AliasLookaheadOperation:
+			if user == "" {
+				return nil, nil
+			}
+			return &logical.Response{Auth: &logical.Auth{Alias: &logical.Alias{Name: user}}}, nil
+		case logical.ResolveRoleOperation:
+			return &logical.Response{Data: map[string]any{"role": "c11role"}}, nil
+		}
+		if pw, _ := req.Data["password"].(string); strings.HasPrefix(pw, "bad") {
+			return nil, logical.ErrInvalidCredentials
 		}
 		a := &logical.Auth{
 			Policies:     []string{"default"},
@@ -395,7 +420,12 @@ func (b *c11Backend) HandleRequest(ctx context.Context, req *logical.Request) (*
 	return nil, logical.ErrUnsupportedPath
 }
 
-func (b *c11Backend) HandleExistenceCheck(context.Context, *logical.Request) (bool, bool, error) {
+func (b *c11Backend) HandleExistenceCheck(_ context.Context, req *logical.Request) (bool, bool, error) {
+	id := req.ID
+	if id == "" {
+		id = b.w.inFlight()
+	}
+	b.w.add(c11Event{Kind: "existence", Mount: b.name, ReqID: id, Path: req.Path, Op: string(req.Operation)})
 	return false, false, nil
 }
 
@@ -454,6 +484,13 @@ func c11Boot(t *testing.T, r *kit.Result, k int, withFile string) *c11World {
 			return &c11Backend{w: w, name: "auth/vcred/", typ: logical.TypeCredential, login: []string{"login"}}, nil
 		}},
 	}
+	// The core treats auth mounts by their TYPE NAME: user lockout (and with it the alias look-ahead
+	// call into the backend) exists only for these. The recording backend is registered under each.
+	for _, typ := range c11LockTypes {
+		conf.CredentialBackends[typ] = func(context.Context, *logical.BackendConfig) (logical.Backend, error) {
+			return &c11Backend{w: w, name: "auth/v" + typ + "/", typ: logical.TypeCredential, login: []string{"login"}}, nil
+		}
+	}
 	core, _, root := TestCoreUnsealedWithConfig(t, conf)
 	w.core, w.root = core, root
 
@@ -469,6 +506,16 @@ func c11Boot(t *testing.T, r *kit.Result, k int, withFile string) *c11World {
 		"audit_non_hmac_request_keys": []string{"exempt_req"}, "audit_non_hmac_response_keys": []string{"exempt_resp"},
 	}})
 	must("enable vcred", &logical.Request{Operation: logical.UpdateOperation, Path: "sys/auth/vcred", Data: map[string]any{"type": "verifcred"}})
+	for _, typ := range c11LockTypes {
+		must("enable v"+typ, &logical.Request{Operation: logical.UpdateOperation, Path: "sys/auth/v" + typ, Data: map[string]any{"type": typ}})
+		me := core.router.MatchingMountEntry(c11Ctx(), "auth/v"+typ+"/login")
+		if me == nil {
+			t.Fatalf("C11 setup: no mount entry for auth/v%s", typ)
+		}
+		if off, err := core.isUserLockoutDisabled(me); err != nil || off {
+			t.Fatalf("C11 setup: user lockout is not in effect on auth/v%s (disabled=%v err=%v)", typ, off, err)
+		}
+	}
 	must("audited header hmac", &logical.Request{Operation: logical.UpdateOperation, Path: "sys/config/auditing/request-headers/X-Verif-Secret", Data: map[string]any{"hmac": true}})
 	must("audited header plain", &logical.Request{Operation: logical.UpdateOperation, Path: "sys/config/auditing/request-headers/X-Verif-Plain", Data: map[string]any{"hmac": false}})
 	for i := 0; i < k; i++ {
@@ -592,6 +639,9 @@ func (w *c11World) do(req *logical.Request, hdrSecret string, extraHdrs ...strin
 		}
 	}
 	resp, err := w.core.HandleRequest(c11Ctx(), req)
+	w.mu.Lock()
+	w.cur = ""
+	w.mu.Unlock()
 	rendered := c11Render(resp, err)
 	outcome := "data"
 	if err != nil || (resp != nil && resp.IsError()) {
@@ -626,7 +676,17 @@ func (res *c11Result) carries() bool {
 
 // ---------------------------------------------------------------- cases
 
-var c11Kinds = []string{"read", "write", "list", "rawbody", "both", "login", "wrap", "unwrap", "unwrap3p", "denied", "badtoken", "tokencreate", "wraptokencreate", "kvwrite"}
+// c11LockTypes: the auth method type names for which the core runs the user-lockout logic
+// (configutil.GetSupportedUserLockoutsAuthMethods).
+var c11LockTypes = []string{"userpass", "approle", "ldap"}
+
+const c11LockoutThreshold = 5 // configutil.UserLockoutThresholdDefault
+
+func c11LockType(cs *c11Case) string {
+	return c11LockTypes[c11Hash(fmt.Sprintf("locktype:%d:%d", cs.K, cs.P))%3]
+}
+
+var c11Kinds = []string{"read", "write", "list", "rawbody", "both", "login", "wrap", "unwrap", "unwrap3p", "denied", "badtoken", "tokencreate", "wraptokencreate", "kvwrite", "lklogin", "lkloginfail", "lklocked", "mfavalidate"}
 
 type c11Case struct {
 	ID      string
@@ -782,12 +842,27 @@ func (j *c11Judge) order(res *c11Result, label string) (reqAccepted, respAccepte
 	}
 	nBackend := 0
 	for _, e := range evs {
+		if e.Kind == "existence" {
+			// the documented exception (see the assumption): counted, not judged
+			r.Count("existence_checks_observed", 1)
+			if reqOK < 0 || reqOK > e.Seq {
+				r.Count("existence_checks_before_request_entry", 1)
+			}
+			continue
+		}
 		if e.Kind != "backend" {
 			continue
 		}
 		nBackend++
 		r.Count("backend_entries_observed", 1)
 		r.Count("backend_entries:"+e.Mount, 1)
+		if strings.HasPrefix(e.Op, "internal:") {
+			r.Count("backend_calls_by_the_core_itself:"+strings.TrimPrefix(e.Op, "internal:"), 1)
+			if reqOK < 0 || reqOK > e.Seq {
+				r.Violate("C11-backend-called-before-request-audited", j.cs.ID, fmt.Sprintf("%s (%s): the core called into backend %s (%s %s, a call of its own on behalf of this request, carrying the request's data) although no audit device had accepted the request entry before (k=%d, %s)", j.cs.Kind, label, e.Mount, e.Op, e.Path, j.cs.K, c11PatternString(j.cs.Pattern)), j.witness(res, nil))
+			}
+			continue
+		}
 		if reqOK < 0 || reqOK > e.Seq {
 			r.Violate("C11-routed-before-request-audited", j.cs.ID, fmt.Sprintf("%s (%s): backend %s was invoked (%s %s) although no audit device had accepted the request entry before (k=%d, %s)", j.cs.Kind, label, e.Mount, e.Op, e.Path, j.cs.K, c11PatternString(j.cs.Pattern)), j.witness(res, nil))
 		}
@@ -1153,6 +1228,39 @@ func (w *c11World) runCase(seed int64, cs *c11Case) *c11Judge {
 		req = &logical.Request{Operation: logical.UpdateOperation, Path: "secret/c11-" + name, ClientToken: w.root, Data: map[string]any{"value": reqSecs[0].Value}}
 		reqSecs = reqSecs[:1]
 		expectReqData = true
+	case "lklogin", "lkloginfail", "lklocked":
+		// logins on an auth mount whose type name makes the core run the user-lockout logic: before
+		// routing the login the core asks the backend for the alias name (a call carrying the login data)
+		path := "auth/v" + c11LockType(cs) + "/login"
+		user := "u" + rng.Canary()
+		pwc := rng.Canary()
+		reqData["username"] = user
+		reqData["password"] = "good" + pwc
+		reqSecs = append(reqSecs, c11Sec{Where: "request.data.password", Value: "good" + pwc, Canary: pwc})
+		if cs.Kind == "lklocked" {
+			// trip the lockout with every device healthy: threshold failing logins in a row
+			for i := 0; i < c11LockoutThreshold; i++ {
+				bad := map[string]any{"username": user, "password": "bad" + rng.Canary()}
+				fres := w.do(&logical.Request{Operation: logical.UpdateOperation, Path: path, Data: bad}, "")
+				j.ids = append(j.ids, fres.ID)
+				ra, rp := j.order(fres, fmt.Sprintf("setup: failing login %d", i+1))
+				if !fres.isErr() || !ra || !rp {
+					r.Inconc("case %s: failing login %d with all devices healthy: error=%v accepted=%v/%v: %s", cs.ID, i+1, fres.isErr(), ra, rp, fres.Rendered)
+					return j
+				}
+				r.Count("failing_logins_to_trip_lockout", 1)
+			}
+		}
+		if cs.Kind == "lkloginfail" {
+			badc := rng.Canary()
+			reqData["password"] = "bad" + badc
+			reqSecs[len(reqSecs)-1] = c11Sec{Where: "request.data.password", Value: "bad" + badc, Canary: badc}
+		}
+		req = &logical.Request{Operation: logical.UpdateOperation, Path: path, Data: reqData}
+		expectReqData = true
+	case "mfavalidate":
+		// the second leg of a login subject to MFA: an unauthenticated request handled on the login path
+		req = &logical.Request{Operation: logical.UpdateOperation, Path: "sys/mfa/validate", Data: map[string]any{"mfa_request_id": "mfa" + rng.Canary(), "mfa_payload": map[string]any{}}}
 	default:
 		r.Inconc("unknown kind %s", cs.Kind)
 		return j
@@ -1180,6 +1288,33 @@ func (w *c11World) runCase(seed int64, cs *c11Case) *c11Judge {
 		if res.isErr() {
 			r.Count("denied_got_error", 1)
 		}
+	case "lklogin", "lkloginfail", "lklocked":
+		look, login := 0, 0
+		for _, e := range w.eventsFor(res.ID) {
+			if e.Kind == "backend" && e.Op == "internal:"+string(logical.AliasLookaheadOperation) {
+				look++
+			} else if e.Kind == "backend" && !strings.HasPrefix(e.Op, "internal:") {
+				login++
+			}
+		}
+		if look > 0 {
+			r.Count("lockout_alias_lookahead_calls_observed", look)
+		}
+		// (a panicking device makes the broker fail the whole request entry although another device accepted it)
+		reqPhasePanic := false
+		for i := 0; i < len(cs.Pattern); i += 2 {
+			reqPhasePanic = reqPhasePanic || cs.Pattern[i] == c11Panic
+		}
+		if reqAcc && !reqPhasePanic && look == 0 {
+			r.Inconc("case %s: the request entry was accepted but the core never asked the backend for the alias name: user lockout is not in effect on this mount", cs.ID)
+		}
+		if cs.Kind == "lklocked" && reqAcc && !reqPhasePanic {
+			if login == 0 && res.isErr() {
+				r.Count("locked_user_login_refused_without_routing", 1)
+			} else {
+				r.Inconc("case %s: the user was not locked out after %d failing logins (login handler calls: %d, error: %v)", cs.ID, c11LockoutThreshold, login, res.isErr())
+			}
+		}
 	case "kvwrite":
 		// effect oracle independent of the proxies: a write whose request entry nobody accepted must not be stored
 		chk := w.do(&logical.Request{Operation: logical.ReadOperation, Path: req.Path, ClientToken: w.root}, "")
@@ -1205,7 +1340,7 @@ func (w *c11World) runCase(seed int64, cs *c11Case) *c11Judge {
 		}
 	}
 	if allOK {
-		wantErr := cs.Kind == "denied" || cs.Kind == "badtoken" || cs.Kind == "both"
+		wantErr := cs.Kind == "denied" || cs.Kind == "badtoken" || cs.Kind == "both" || cs.Kind == "lkloginfail" || cs.Kind == "lklocked" || cs.Kind == "mfavalidate"
 		if res.isErr() != wantErr {
 			r.Inconc("case %s: with all devices healthy the %s request gave error=%v: %s", cs.ID, cs.Kind, res.isErr(), res.Rendered)
 		}
@@ -1285,7 +1420,8 @@ func TestVerif_C11_Order(t *testing.T) {
 	seed := kit.Seed(11)
 	r := kit.NewResult(t, "c11-order", seed, "a case is (k devices, one assignment of ok/err/panic to every (device, phase), request kind) run against a real Core; kinds: read, write, list, raw-body, data+error, login, wrapped response, unwrap (own token / third party), denied, bogus token, token create, wrapped token create, kv write with read-back; it is non-trivial when at least one device call is scripted to fail or panic; all 3^(2k) assignments for k<=3 (k<=4 thorough) and a seeded sample of k+1")
 	defer r.Write(t)
-	r.Assume("'accepted' = the device's LogRequest/LogResponse returned nil; 'routed to a backend' = HandleRequest of the mounted backend (own recording backends, proxies in front of sys/, auth/token/, cubbyhole/) was entered with the client's request id; internal sub-requests without that id are not judged")
+	r.Assume("'accepted' = the device's LogRequest/LogResponse returned nil; 'routed to a backend' = HandleRequest of the mounted backend was entered: for the own recording backends (logical, credential under its own type name and under userpass / approle / ldap) EVERY HandleRequest call of any operation counts, also the calls the core makes on its own account while it serves the request (alias look-ahead of the user-lockout check, role resolution; they carry no request id and are attributed to the client request in flight); for the proxies in front of sys/, auth/token/, cubbyhole/ calls with the client's request id count")
+	r.Assume("HandleExistenceCheck is the one call into a backend that precedes the request entry by design: Core.CheckToken asks the backend whether the resource exists to turn a write into create or update before anything else happens ('we ask the backend to give us the real skinny', request_handling.go), and the operation so determined is part of the request entry; existence checks are recorded and counted, not judged")
 	r.Assume("extension beyond the statement's list: values of request headers whose current audit configuration (last successfully applied create-or-overwrite / delete call, generated histories of 1..3 steps per case) is hmac=true, or that are not configured, must not appear in entries (anchor audited_headers.go)")
 
 	var cases []*c11Case
@@ -1360,7 +1496,15 @@ func TestVerif_C11_Order(t *testing.T) {
 	r.Require("header_final_state:absent", 100)
 	r.Require("plain_configured_header_seen_plain", 200)
 	r.Require("list_keys_elided", 5)
-	for _, kind := range []string{"read", "write", "list", "rawbody", "login", "wrap", "unwrap", "unwrap3p", "tokencreate", "wraptokencreate", "kvwrite"} {
+	r.Require("lockout_alias_lookahead_calls_observed", 300)
+	r.Require("backend_calls_by_the_core_itself:"+string(logical.AliasLookaheadOperation), 300)
+	r.Require("locked_user_login_refused_without_routing", 50)
+	r.Require("failing_logins_to_trip_lockout", 1000)
+	r.Require("existence_checks_observed", 200)
+	for _, typ := range c11LockTypes {
+		r.Require("backend_entries:auth/v"+typ+"/", 100)
+	}
+	for _, kind := range []string{"read", "write", "list", "rawbody", "login", "wrap", "unwrap", "unwrap3p", "tokencreate", "wraptokencreate", "kvwrite", "lklogin"} {
 		r.Require("delivered:"+kind, 5)
 	}
 }
